@@ -64,7 +64,8 @@ def check(ctx):
                    f"{norm(rets[0].value) if rets[0].value is not None else None} instead of that element (and disagrees with its group-wise form)",
                    clause="first / last / nth return the element at that position when it exists")
     ctx.note(f"GRD-index: {n_idx} explicit bounds shortcut(s) examined")
-    # element-valued results (an element of x: x[index], np.amax(x), np.amin(x)) are NumPy scalars only for NumPy's own element
+    # element-valued results (an element of x: x[index], np.amax(x), np.amin(x); np.sum(x), which adds the elements with
+    # their own +) are NumPy scalars only for NumPy's own element
     # types; the elements of string and object vectors are plain Python objects without .item().  Converting the result with
     # .item() is therefore guarded (isinstance(..., np.generic) / hasattr(..., "item")) wherever the value may be an element.
     ctx.rule("GRD-item", ".item() on a value that may be an element of a string / object vector is guarded")
@@ -76,7 +77,7 @@ def check(ctx):
             recv = c.func.value
             d_ = repo.dotted(f_, recv.func) if isinstance(recv, ast.Call) else None
             element_valued = isinstance(recv, ast.Subscript) or d_ in ("numpy.amax", "numpy.amin", "numpy.max", "numpy.min", "numpy.nanmax",
-                                                                        "numpy.nanmin") or isinstance(recv, ast.Name)
+                                                                        "numpy.nanmin", "numpy.sum", "numpy.nansum", "numpy.prod") or isinstance(recv, ast.Name)
             if not element_valued:
                 continue
             n_item += 1
